@@ -37,19 +37,19 @@ func poolLockClass() *LockClass {
 		},
 		Annotated: map[string]int{
 			// the repository's own "caller must have lock" comments, read and frozen:
-			"(*" + wk + ".worker).startContainer":   lkW,
-			"(*" + wk + ".worker).updateRunning":    lkW,
-			"(*" + wk + ".worker).closeRunner":      lkW,
-			"(*" + wk + ".worker).shutdown":         lkW,
-			"(*" + wk + ".worker).shutdownIfIdle":   lkW,
-			"(*" + wk + ".worker).shutdownIfBroken": lkW,
-			"(*" + wk + ".worker).setIdleBehavior":  lkW,
-			"(*" + wk + ".worker).reportBootOutcome": lkW,
+			"(*" + wk + ".worker).startContainer":                                lkW,
+			"(*" + wk + ".worker).updateRunning":                                 lkW,
+			"(*" + wk + ".worker).closeRunner":                                   lkW,
+			"(*" + wk + ".worker).shutdown":                                      lkW,
+			"(*" + wk + ".worker).shutdownIfIdle":                                lkW,
+			"(*" + wk + ".worker).shutdownIfBroken":                              lkW,
+			"(*" + wk + ".worker).setIdleBehavior":                               lkW,
+			"(*" + wk + ".worker).reportBootOutcome":                             lkW,
 			"(*" + wk + ".worker).reportTimeBetweenFirstSSHAndReadyForContainer": lkW,
-			"(*" + wk + ".worker).saveTags":            lkW,
-			"(*" + wk + ".worker).eligibleForShutdown": lkR,
-			"(*" + wk + ".Pool).updateWorker":          lkW,
-			"(*" + wk + ".Pool).kill":                  lkW,
+			"(*" + wk + ".worker).saveTags":                                      lkW,
+			"(*" + wk + ".worker).eligibleForShutdown":                           lkR,
+			"(*" + wk + ".Pool).updateWorker":                                    lkW,
+			"(*" + wk + ".Pool).kill":                                            lkW,
 		},
 	}
 }
@@ -75,16 +75,16 @@ func runC14(r *R) {
 			wk + ".worker": {"state": true, "running": true, "starting": true, "idleBehavior": true, "updated": true, "busy": true, "destroyed": true, "probed": true, "lastUUID": true, "instance": true, "bootOutcomeReported": true, "staleRunLockSince": true, "firstSSHConnection": true, "timeToReadyReported": true},
 		},
 		ReadFuncs: map[string]bool{
-			"(*" + wk + ".Pool).StartContainer": true,
-			"(*" + wk + ".Pool).Running":        true,
-			"(*" + wk + ".Pool).KillContainer":  true,
-			"(*" + wk + ".Pool).Unallocated":    true,
-			"(*" + wk + ".Pool).Shutdown":       true,
-			"(*" + wk + ".Pool).CountWorkers":   true,
+			"(*" + wk + ".Pool).StartContainer":  true,
+			"(*" + wk + ".Pool).Running":         true,
+			"(*" + wk + ".Pool).KillContainer":   true,
+			"(*" + wk + ".Pool).Unallocated":     true,
+			"(*" + wk + ".Pool).Shutdown":        true,
+			"(*" + wk + ".Pool).CountWorkers":    true,
 			"(*" + wk + ".Pool).ForgetContainer": true,
-			"(*" + wk + ".Pool).KillInstance":   true,
+			"(*" + wk + ".Pool).KillInstance":    true,
 			"(*" + wk + ".Pool).SetIdleBehavior": true,
-			"(*" + wk + ".Pool).AtQuota":        true,
+			"(*" + wk + ".Pool).AtQuota":         true,
 		},
 		SyncCallbacks: map[string]bool{"sort.Slice": true},
 		Exempt:        map[string]string{"(*" + wk + ".Pool).setup": "runs once inside setupOnce.Do before any other method touches the maps (sync.Once gives the happens-before edge)"},
@@ -108,7 +108,6 @@ func runC14(r *R) {
 	}
 	runC14rest(r)
 }
-
 
 // ModuleFuncs: every source function of the arvados module that was loaded.
 func (w *World) ModuleFuncs() []*ssa.Function {
@@ -479,4 +478,3 @@ func stateConst(w *World, name string) int64 {
 	}
 	return -999
 }
-
